@@ -104,7 +104,7 @@ class Inliner:
                 b = blocks[i]
                 t = b["term"]
                 tgt = self._target(f, t, blocks) if (t["k"] == "call" and not b["cleanup"]) else None
-                if tgt and tgt[0] not in self.stack and self.prog.fns[tgt[0]].d.get("blocks"):
+                if tgt and tgt[0] not in self.stack and tgt[0] not in b.get("chain", ()) and self.prog.fns[tgt[0]].d.get("blocks"):
                     self._inline_at(f, locals_, blocks, i, tgt)
                     self.inlined_sites[tgt[0]] = self.inlined_sites.get(tgt[0], 0) + 1
                 elif tgt:
@@ -133,6 +133,10 @@ class Inliner:
                                        "args": c.get("rargs", []), "kind": "Item", "instance": c.get("instance")}
                     cb[j]["term"]["callee"] = cal
         lb, bb = len(locals_), len(blocks)
+        chain = tuple(blocks[bi].get("chain", ())) + (key,)
+        for blk in cb:
+            # a recursive helper is expanded once per call site: the self-call inside the copy stays a call
+            blk["chain"] = tuple(blk.get("chain", ())) + chain
         for l in cl:
             l["inl"] = key
         locals_.extend(cl)
